@@ -76,6 +76,8 @@ func report(f *flags, w *propWork, results []*oblResult, wall time.Duration) int
 	var failed, undecided, engine []*oblResult
 	solverTime := int64(0)
 	bySolver := map[string]int{}
+	deadExits := map[string]int{}
+	liveExits := map[string]int{}
 	for _, r := range results {
 		solverTime += r.Ms
 		switch r.Result {
@@ -85,14 +87,28 @@ func report(f *flags, w *propWork, results []*oblResult, wall time.Duration) int
 		case "covered":
 			covers++
 			coverOK++
+			if r.Kind == "cover-exit" {
+				liveExits[r.Func]++
+			}
 		case "vacuous":
 			covers++
+			if r.Kind == "cover-exit" {
+				deadExits[r.Func]++
+				continue
+			}
 			engine = append(engine, r)
 		case "sat", "disagree":
 			failed = append(failed, r)
 		case "engine-error":
 			engine = append(engine, r)
 		default:
+			if r.Kind == "cover" || r.Kind == "cover-exit" {
+				if r.Kind == "cover-exit" {
+					liveExits[r.Func]++
+				}
+				covers++ // satisfiability of the assumptions not decided within the time limit: not an alarm
+				continue
+			}
 			undecided = append(undecided, r)
 		}
 	}
@@ -170,6 +186,14 @@ func report(f *flags, w *propWork, results []*oblResult, wall time.Duration) int
 		lines = append(lines, fmt.Sprintf("FAILED obligation %s [%s] %s", r.Name, r.Pos, r.Src))
 		lines = append(lines, fmt.Sprintf("VIOLATION property=%s replay=%s%s", f.prop, rp, suffix))
 		exit = max(exit, 1)
+	}
+	for fn, n := range deadExits {
+		if liveExits[fn] == 0 {
+			lines = append(lines, fmt.Sprintf("ENGINE-ERROR: every normal exit of %s is unreachable under its contract's assumptions (%d exits): vacuous proof", fn, n))
+			if exit == 0 {
+				exit = 2
+			}
+		}
 	}
 	for _, r := range engine {
 		if r.Result == "vacuous" {
